@@ -24,7 +24,7 @@ func init() {
 		Phases: func(tier string, seed int64) []Phase {
 			return []Phase{{Name: "histories-plain", Run: func(c *Ctx) { c20Run(c, "plain") }}, {Name: "histories-tls", Run: func(c *Ctx) { c20Run(c, "tls") }}}
 		},
-		MinObserved: []string{"steps", "searches_compared", "op/add", "op/modify", "op/delete", "op/set", "searches_with_odd_parameters", "searches_based_at_a_dn_below_the_groups_base"},
+		MinObserved: []string{"steps", "searches_compared", "op/add", "op/modify", "op/delete", "op/set", "searches_with_odd_parameters", "searches_based_at_a_dn_below_the_groups_base", "searches_for_dns_with_parentheses"},
 	})
 }
 
@@ -45,7 +45,17 @@ type c20Model struct {
 	Groups map[string]*c20Entry
 }
 
-func c20UserDN(i int) string  { return fmt.Sprintf("cn=u%c,%s", 'a'+i, c20People) }
+// c20NUsers: eight plain names and two with a parenthesised remark (legal in a DN; they share the remark, yet no DN is
+// a substring of another)
+const c20NUsers = 10
+
+func c20UserCN(i int) string {
+	if i >= 8 {
+		return fmt.Sprintf("u%c (ops)", 'a'+i)
+	}
+	return fmt.Sprintf("u%c", 'a'+i)
+}
+func c20UserDN(i int) string  { return fmt.Sprintf("cn=%s,%s", c20UserCN(i), c20People) }
 func c20GroupDN(i int) string { return fmt.Sprintf("cn=g%c,%s", 'a'+i, c20Groups) }
 
 var c20AttrNames = []string{"mail", "description", "sn", "telephoneNumber", "title", "memberOf", "email"}
@@ -183,9 +193,9 @@ func c20History(c *Ctx, td interface {
 	tlog, _ := testdirectory.NewLogger(hclog.New(&hclog.LoggerOptions{Level: hclog.Off}))
 	reset := func() {
 		model.Users, model.Groups = map[string]*c20Entry{}, map[string]*c20Entry{}
-		for i := 0; i < 8; i++ {
-			if r.Chance(45) {
-				e := &c20Entry{Attrs: map[string][]string{"cn": {fmt.Sprintf("u%c", 'a'+i)}}}
+		for i := 0; i < c20NUsers; i++ {
+			if r.Chance(45) && !(useHelpers && i >= 8) {
+				e := &c20Entry{Attrs: map[string][]string{"cn": {c20UserCN(i)}}}
 				for _, a := range c20AttrNames {
 					if r.Chance(40) {
 						e.Attrs[a] = c20Vals(r, 1+r.Intn(3))
@@ -196,7 +206,7 @@ func c20History(c *Ctx, td interface {
 		}
 		for i := 0; i < 4; i++ {
 			if r.Chance(50) {
-				model.Groups[c20GroupDN(i)] = &c20Entry{Attrs: map[string][]string{"member": {c20UserDN(r.Intn(8))}}}
+				model.Groups[c20GroupDN(i)] = &c20Entry{Attrs: map[string][]string{"member": {c20UserDN(r.Intn(c20NUsers))}}}
 			}
 		}
 		if useHelpers {
@@ -241,6 +251,11 @@ func c20History(c *Ctx, td interface {
 			mode = "base-is-entry-dn-below-groups"
 			op = sber.Search{Base: []byte(dn), Scope: 0, Filter: sber.EqFilter("cn", cn[3:]), Attrs: [][]byte{}}.Node()
 			c.Count("searches_based_at_a_dn_below_the_groups_base", 1)
+		case strings.Contains(dn, "("):
+			// a DN with parentheses: read by its own DN (filter text would carry them escaped)
+			mode = "base-is-entry-dn"
+			op = sber.Search{Base: []byte(dn), Scope: 0, Filter: sber.PresentFilter("objectClass"), Attrs: [][]byte{}}.Node()
+			c.Count("searches_for_dns_with_parentheses", 1)
 		case isGroup:
 			mode = "groups-filter"
 			op = sber.Search{Base: []byte(c20Groups), Scope: 2, Filter: sber.EqFilter("cn", cn[3:]), Attrs: [][]byte{}}.Node()
@@ -304,7 +319,7 @@ func c20History(c *Ctx, td interface {
 		c.Count("steps", 1)
 		switch r.Intn(10) {
 		case 0, 1, 2: // add
-			dn := c20UserDN(r.Intn(8))
+			dn := c20UserDN(r.Intn(c20NUsers))
 			if r.Chance(20) {
 				dn = c20HDN(r.Intn(4)) // an entry below the groups base, created by an Add request
 			}
@@ -336,11 +351,11 @@ func c20History(c *Ctx, td interface {
 				}
 			}
 			mutated = true
-			if !verify(k, dn) || !verify(k, c20UserDN(r.Intn(8))) {
+			if !verify(k, dn) || !verify(k, c20UserDN(r.Intn(c20NUsers))) {
 				return false
 			}
 		case 3, 4, 5: // modify a user entry
-			dn := c20UserDN(r.Intn(8))
+			dn := c20UserDN(r.Intn(c20NUsers))
 			me := model.Users[dn]
 			var changes []sber.Change
 			var desc []string
@@ -410,7 +425,7 @@ func c20History(c *Ctx, td interface {
 				}
 			}
 			mutated = true
-			if !verify(k, dn) || !verify(k, c20UserDN(r.Intn(8))) {
+			if !verify(k, dn) || !verify(k, c20UserDN(r.Intn(c20NUsers))) {
 				return false
 			}
 		case 6, 7: // delete
@@ -421,7 +436,7 @@ func c20History(c *Ctx, td interface {
 			} else if r.Chance(20) {
 				dn = c20HDN(r.Intn(4))
 			} else {
-				dn = c20UserDN(r.Intn(8))
+				dn = c20UserDN(r.Intn(c20NUsers))
 			}
 			trace = append(trace, "delete "+dn)
 			kinds = append(kinds, "D")
@@ -445,7 +460,7 @@ func c20History(c *Ctx, td interface {
 				fail("deleting a missing entry did not return noSuchObject", fmt.Sprintf("%s: result %d", dn, res.Code))
 			}
 			mutated = true
-			other := c20UserDN(r.Intn(8))
+			other := c20UserDN(r.Intn(c20NUsers))
 			if isGroup {
 				other = c20GroupDN(r.Intn(4))
 			}
@@ -456,7 +471,7 @@ func c20History(c *Ctx, td interface {
 			if r.Chance(50) {
 				// a search with unusual parameters (typesOnly, limits, attribute selection): what it returns is not
 				// asserted (the statement is silent), but it is a READ - every later search must still reflect the store
-				base := pick(r, []string{c20People, c20Groups, c20UserDN(r.Intn(8))})
+				base := pick(r, []string{c20People, c20Groups, c20UserDN(r.Intn(c20NUsers))})
 				op := sber.Search{Base: []byte(base), Scope: int64(r.Intn(3)), Deref: int64(r.Intn(4)), SizeLimit: int64(r.Intn(3)), TimeLimit: int64(r.Intn(3)),
 					TypesOnly: r.Bool(), Filter: sber.EqFilter("cn", pick(r, []string{"u", "g", "ua", "zz"})), Attrs: [][]byte{[]byte("cn"), []byte("mail")}}.Node()
 				trace = append(trace, fmt.Sprintf("search with odd parameters on %s", base))
@@ -466,14 +481,14 @@ func c20History(c *Ctx, td interface {
 					fail("search got no well-formed answer", err.Error())
 					return false
 				}
-				if !verify(k, c20UserDN(r.Intn(8))) || !verify(k, c20GroupDN(r.Intn(4))) {
+				if !verify(k, c20UserDN(r.Intn(c20NUsers))) || !verify(k, c20GroupDN(r.Intn(4))) {
 					return false
 				}
 				continue
 			}
 			trace = append(trace, "search")
 			kinds = append(kinds, "S")
-			dn := c20UserDN(r.Intn(8))
+			dn := c20UserDN(r.Intn(c20NUsers))
 			if r.Chance(25) {
 				dn = c20GroupDN(r.Intn(4))
 			}
@@ -490,7 +505,7 @@ func c20History(c *Ctx, td interface {
 	}
 	// end of history: every pool DN
 	k := clients[0]
-	for i := 0; i < 8; i++ {
+	for i := 0; i < c20NUsers; i++ {
 		if !verify(k, c20UserDN(i)) {
 			return false
 		}
